@@ -5,6 +5,8 @@ CONSTANTS
   MaxT = 3
   Variant = "ok"
   Dense = TRUE
+  Basis = "all"
+  Singles = "all"
 INVARIANT TypeOK
 INVARIANT TileInv
 INVARIANT BigIsQuasiPeriodic
